@@ -118,4 +118,32 @@ def stampState (rf ff fp : Bool) : TState → List Inst → Py TState
       let r ← getParam i.name rf ff fp
       stampState rf ff fp (stepState st r i.name i.args.length i.positive) is
 
+/-! ### statements as sequences of atom occurrences (the traversal of `ProgramTransformer`) -/
+
+/-- an atom occurrence of a statement: the flags of its position (`replace_future`, `fail_future`, `fail_past`), its sign
+    context and the term -/
+structure AtomOcc where
+  rf : Bool
+  ff : Bool
+  fp : Bool
+  pos : Bool
+  term : ATerm
+
+/-- the traversal of a statement: its atoms rewritten in visit order, the state threaded through -/
+def addTimeStmt : List AtomOcc → TState → Py (List RTerm × TState)
+  | [], st => pure ([], st)
+  | o :: os, st => do
+    let (r, st1) ← addTime o.rf o.ff o.fp o.pos st o.term
+    let (rs, st2) ← addTimeStmt os st1
+    pure (r :: rs, st2)
+
+/-- the statements of a program one after the other, one bookkeeping state -/
+def addTimeProg : List (List AtomOcc) → TState → Py (List (List RTerm) × TState)
+  | [], st => pure ([], st)
+  | s :: ss, st => do
+    let (r, st1) ← addTimeStmt s st
+    let (rs, st2) ← addTimeProg ss st1
+    pure (r :: rs, st2)
+
+
 end TelModel
